@@ -706,7 +706,9 @@ func (f *Frame) sliceOp(ins *ssa.Slice, st State) (Val, State) {
 			a := Term{"a", ArraySort(SInt, es)}
 			i := Term{"i", SInt}
 			vc.Assume(Forall([]Term{a, i}, Eq(f.w.Sorts.Elt(a, noffA, i), f.w.Sorts.Elt(a, offA, Add(loA, i))), []Term{f.w.Sorts.Elt(a, noffA, i)}))
-			vc.Assume(Forall([]Term{a, i}, Eq(f.w.Sorts.Elt(a, offA, i), f.w.Sorts.Elt(a, noffA, Sub(i, loA))), []Term{f.w.Sorts.Elt(a, offA, i)}))
+			if feedsAppendOrCopy(ins) {
+				vc.Assume(Forall([]Term{a, i}, Eq(f.w.Sorts.Elt(a, offA, i), f.w.Sorts.Elt(a, noffA, Sub(i, loA))), []Term{f.w.Sorts.Elt(a, offA, i)}))
+			}
 			return Val{T: MkSlice(SArr(x.T), noffA, Sub(hi, lo), Sub(mx, lo))}, st
 		}
 		return Val{T: MkSlice(SArr(x.T), noff, Sub(hi, lo), Sub(mx, lo))}, st
@@ -924,4 +926,21 @@ func (w *World) ioEOFDecl() string {
 		}
 	}
 	return out
+}
+
+// feedsAppendOrCopy: the slice expression is an operand of append or copy (the
+// reverse view axiom is only needed to carry element facts into such bulk moves).
+func feedsAppendOrCopy(ins *ssa.Slice) bool {
+	refs := ins.Referrers()
+	if refs == nil {
+		return false
+	}
+	for _, r := range *refs {
+		if c, ok := r.(ssa.CallInstruction); ok {
+			if b, ok := c.Common().Value.(*ssa.Builtin); ok && (b.Name() == "append" || b.Name() == "copy") {
+				return true
+			}
+		}
+	}
+	return false
 }
